@@ -779,7 +779,30 @@ class Exec:
         p, self.pending = self.pending, []
         return p
 
+    def is_opaque_stmt(self, s):
+        """a statement that only updates a variable the contract declares opaque (a data structure outside the modelled subset, e.g. a list of
+        strings): it is SKIPPED - sound for obligations that do not mention the variable; exceptions the statement itself could raise are not
+        covered (the contract's note says so and the bounded tier covers them)."""
+        opaque = self.c.get("opaque", ())
+        if not opaque:
+            return False
+
+        def base(t):
+            while isinstance(t, (ast.Subscript, ast.Attribute)):
+                t = t.value
+            return t.id if isinstance(t, ast.Name) else None
+        if isinstance(s, ast.Assign) and all(base(t) in opaque for t in s.targets):
+            return True
+        if isinstance(s, ast.AugAssign) and base(s.target) in opaque:
+            return True
+        if isinstance(s, ast.Expr) and isinstance(s.value, ast.Call) and isinstance(s.value.func, ast.Attribute) and base(s.value.func.value) in opaque:
+            return True
+        return False
+
     def exec_stmt(self, s, st):
+        if self.is_opaque_stmt(s):
+            self.skipped_opaque = getattr(self, "skipped_opaque", 0) + 1
+            return [Outcome("normal", st)]
         m = getattr(self, "st_" + type(s).__name__, None)
         if m is None:
             raise Unsupported(f"statement {type(s).__name__} at line {s.lineno}")
@@ -817,6 +840,9 @@ class Exec:
         return [Outcome("normal", x) for x in outs] + pend
 
     def assign(self, tgt, v, st, s):
+        if isinstance(tgt, ast.Name) and tgt.id in self.c.get("opaque", ()):
+            st.env[tgt.id] = ("opaque", tgt.id)
+            return
         if isinstance(tgt, ast.Name):
             st.aliased.discard(tgt.id)          # rebinding a name ends its membership in an alias pair
             if isinstance(v, Seq) and v.kind in ("list", "nd") and isinstance(getattr(s, "value", None), ast.Name) \
@@ -967,7 +993,11 @@ class Exec:
         return calls.delete(self, s, st)
 
     def st_If(self, s, st):
-        c = tobool(self.ev(s.test, st))
+        opaque = self.c.get("opaque", ())
+        if opaque and any(isinstance(x, ast.Name) and x.id in opaque for x in ast.walk(s.test)):
+            c = fresh("opaque_condition", B)       # a test on an opaque data structure: both outcomes are possible
+        else:
+            c = tobool(self.ev(s.test, st))
         raised = self.drain()
         cs = z3.simplify(c)
         outs = []
@@ -1173,6 +1203,10 @@ class Exec:
 
     def st_While(self, s, st):
         n = self.loop_ids[id(s)]
+        if self.c.get("stop_after_loop") == n:
+            outs = self.cut_loop(s, st, n, self.loop_spec(n, s), cond=s.test)
+            # partial contract: the obligations end with this loop (its exit states are treated as a return of None)
+            return [Outcome("return", o.st, value=NONE, line=s.end_lineno) if o.kind == "normal" else o for o in outs]
         if s.orelse:
             raise Unsupported("while-else")
         spec = self.loop_spec(n, s)
@@ -1310,7 +1344,10 @@ class Exec:
         for nme, shape in self.c.get("ghost_params", {}).items():       # universally quantified spec-only inputs
             st.env[nme] = shapes.fresh_of(self, st, shape, nme)
             self.ghost_names.add(nme)
-        for nme in names:
+        simple = ("int", "nat", "bool", "true", "false", "const0", "none")
+        ordered = [n_ for n_ in names if self.c.get("params", {}).get(n_) in simple] + \
+                  [n_ for n_ in names if self.c.get("params", {}).get(n_) not in simple]       # dimensions first: shapes may mention them
+        for nme in ordered:
             if nme in st.env:          # declared as a ghost (spec-only) input of the harness
                 self.param_objects[nme] = st.env[nme]
                 continue
